@@ -347,6 +347,112 @@ func depProcessorTable(c *core.Ctx, p *procInfo) (rs rows, runs int, ownTags map
 
 // procOwnTag: the string constant the processor compares Property.Tag with.
 func procOwnTag(c *core.Ctx, p *procInfo) string {
+	if s := procOwnTagSyntactic(c, p); s != "" {
+		return s
+	}
+	key := "own-tag-probe:" + p.Name()
+	if v, ok := c.Memo.Load(key); ok {
+		return v.(string)
+	}
+	s := procOwnTagProbe(c, p)
+	c.Memo.Store(key, s)
+	return s
+}
+
+// procOwnTagProbe finds the tag a processor selects by, when the comparison is not written in its method (a predicate
+// made by a factory, a generic selection helper): the method is interpreted on one property that has nothing but a
+// tag, once for every tag constant of package definition.  A property the processor passes over ends the run at
+// once without another field of it being read; the processor's own tag is the one tag for which that is not so.
+func procOwnTagProbe(c *core.Ctx, p *procInfo) string {
+	dp := c.ByPath[core.Mod+"/definition"]
+	if dp == nil || p.Props == nil {
+		return ""
+	}
+	var tags []string
+	sc := dp.Types.Scope()
+	for _, name := range sc.Names() {
+		if k, ok := sc.Lookup(name).(*types.Const); ok && strings.HasSuffix(name, "Tag") && k.Val().Kind() == constant.String {
+			tags = append(tags, constant.StringVal(k.Val()))
+		}
+	}
+	tags = append(tags, "no-such-tag")
+	var taken []string
+	for _, tag := range tags {
+		t := newTbl(c)
+		pr := absint.NewTok("prop", "property")
+		pr.Fields["Tag"] = absint.Str(tag)
+		other := false
+		t.field = func(ip *absint.Interp, obj *absint.Tok, name string, typ types.Type) absint.Value {
+			if obj == pr && name != "PropertyType" {
+				other = true
+			}
+			return nil
+		}
+		ip := absint.New(t)
+		ip.IsLog, ip.InScope = core.IsLogCall, c.InScope
+		args := layoutArgs(p.Props, func(ty types.Type) absint.Value {
+			if sl, ok := ty.Underlying().(*types.Slice); ok && core.NamedOf(sl.Elem()) == c.Named("component_definition", "Property") {
+				return &absint.List{Elems: []absint.Value{pr}}
+			}
+			return nil
+		})
+		out := ip.Run(p.Props, args, nil)
+		if out.Undecided != nil || out.Panic != nil || other {
+			taken = append(taken, tag)
+		}
+	}
+	if len(taken) == 1 && taken[0] != "no-such-tag" {
+		return taken[0]
+	}
+	return ""
+}
+
+// selectionProbe: what a processor selects properties by, found by interpretation: "Tag==<t>" when it passes over a
+// property of every other tag untouched, "PropertyType==<k>" when it passes over every property of the other kind
+// untouched, "" when neither could be shown.
+func selectionProbe(c *core.Ctx, p *procInfo) string {
+	key := "selection-probe:" + p.Name()
+	if v, ok := c.Memo.Load(key); ok {
+		return v.(string)
+	}
+	res := ""
+	if t := procOwnTagProbe(c, p); t != "" {
+		res = "Tag==" + t
+	} else if p.Props != nil {
+		var taken []string
+		for _, kind := range []string{"Component", "Configuration", "no-such-kind"} {
+			t := newTbl(c)
+			pr := absint.NewTok("prop", "property")
+			pr.Fields["PropertyType"] = absint.Str(kind)
+			other := false
+			t.field = func(ip *absint.Interp, obj *absint.Tok, name string, typ types.Type) absint.Value {
+				if obj == pr {
+					other = true
+				}
+				return nil
+			}
+			ip := absint.New(t)
+			ip.IsLog, ip.InScope = core.IsLogCall, c.InScope
+			args := layoutArgs(p.Props, func(ty types.Type) absint.Value {
+				if sl, ok := ty.Underlying().(*types.Slice); ok && core.NamedOf(sl.Elem()) == c.Named("component_definition", "Property") {
+					return &absint.List{Elems: []absint.Value{pr}}
+				}
+				return nil
+			})
+			out := ip.Run(p.Props, args, nil)
+			if out.Undecided != nil || out.Panic != nil || other {
+				taken = append(taken, kind)
+			}
+		}
+		if len(taken) == 1 && taken[0] != "no-such-kind" {
+			res = "PropertyType==" + taken[0]
+		}
+	}
+	c.Memo.Store(key, res)
+	return res
+}
+
+func procOwnTagSyntactic(c *core.Ctx, p *procInfo) string {
 	for _, b := range p.Props.Blocks {
 		for _, in := range b.Instrs {
 			bo, ok := in.(*ssa.BinOp)
@@ -388,11 +494,14 @@ func predicateTables(c *core.Ctx, r *core.Report) {
 	for _, pn := range []string{"Type", "InterfaceType"} {
 		ctor := c.Func("container", pn)
 		cons := "predicate:container." + pn
-		if ctor == nil || len(ctor.AnonFuncs) != 1 {
-			r.Undecided("C06.R2", cons, "", "predicate constructor (with exactly one closure) not found")
+		if ctor == nil || len(ctor.Params) != 1 {
+			r.Undecided("C06.R2", cons, "", "predicate constructor (of one requested type) not found")
 			continue
 		}
-		lit := ctor.AnonFuncs[0]
+		var lit *ssa.Function // the one closure the constructor returns; nil: the constructor is interpreted itself
+		if len(ctor.AnonFuncs) == 1 {
+			lit = ctor.AnonFuncs[0]
+		}
 		bad := ""
 		runs := 0
 		for _, same := range []bool{true, false} {
@@ -442,6 +551,31 @@ func predicateTables(c *core.Ctx, r *core.Report) {
 					if !ok || got != absint.Value(absint.Bool(want)) || out.Panic != nil {
 						bad = fmt.Sprintf("sameType=%v implements=%v => %s, want %v", same, impl, showOutcome(out), want)
 					}
+				}
+				if lit == nil {
+					// a predicate made of something else than one closure (a matcher object's method value): the
+					// constructor is interpreted on the requested type, then what it returns is applied to the candidate
+					orc, args, bd := build()
+					ip := absint.New(orc)
+					ip.IsLog, ip.InScope = core.IsLogCall, c.InScope
+					out := ip.Run(ctor, []absint.Value{bd[0]}, nil)
+					if out.Undecided == nil && out.Panic == nil && len(out.Ret) == 1 {
+						switch f := out.Ret[0].(type) {
+						case *absint.Closure:
+							out = ip.Run(f.Fn, args, f.Bind)
+						case *ssa.Function:
+							out = ip.Run(f, args, nil)
+						default:
+							out = absint.Outcome{Undecided: &absint.Undecided{Msg: "the constructor did not return a function"}}
+						}
+					}
+					runs++
+					if out.Undecided != nil {
+						bad = "left the model: " + out.Undecided.Msg
+					} else {
+						check(ip, out)
+					}
+					continue
 				}
 				// FreeVars are captured by value here (typ is a parameter never reassigned): bind directly or via cell
 				var u string
